@@ -340,3 +340,8 @@ mod tests {
         assert!(!filter.is_in("10:32:54:76:98:BA:DC:FF".parse().unwrap()));
     }
 }
+
+// verification hook (guard: cfg(kani)); contract harnesses live outside the repository
+#[cfg(kani)]
+#[path = "/verif/kani/ntp_proto/ipfilter.rs"]
+mod verif;
